@@ -11,6 +11,10 @@ type Tag struct {
 	Name              TagName
 	Title             string
 	Description       *string
+
+	// implicit is true for the tag made from the path of an interaction, such a
+	// tag isn't declared by the TAG directive and can't be referenced.
+	implicit bool
 }
 
 var _ json.Marshaler = &Tags{}
@@ -31,6 +35,7 @@ func newPathTag(r InteractionID) *Tag {
 		Children:          &Tags{},
 		Title:             title,
 		Name:              tagName(title),
+		implicit:          true,
 	}
 }
 
